@@ -6,6 +6,7 @@ import (
 	"fmt"
 	"os"
 	"path/filepath"
+	"sort"
 	"sync"
 	"sync/atomic"
 	"time"
@@ -853,6 +854,38 @@ func (m *Manager) loadSSTables() error {
 
 		// Add to the list
 		m.sstables = append(m.sstables, reader)
+	}
+
+	// Reads consult m.sstables from the end (newest) to the start (oldest).
+	// Directory order is name order, which puts level-1 files after level-0
+	// files (i.e. treats compacted, older data as newest). Order the list
+	// oldest first: deeper levels before shallower ones, then by file number
+	// and timestamp. New files must be numbered after the existing ones or a
+	// flush after a restart sorts before older files.
+	type fileID struct {
+		level     int
+		sequence  uint64
+		timestamp int64
+	}
+	idOf := func(r *sstable.Reader) fileID {
+		var id fileID
+		fmt.Sscanf(filepath.Base(r.FilePath()), sstableFilenameFormat, &id.level, &id.sequence, &id.timestamp)
+		return id
+	}
+	sort.SliceStable(m.sstables, func(i, j int) bool {
+		a, b := idOf(m.sstables[i]), idOf(m.sstables[j])
+		if a.level != b.level {
+			return a.level > b.level
+		}
+		if a.sequence != b.sequence {
+			return a.sequence < b.sequence
+		}
+		return a.timestamp < b.timestamp
+	})
+	for _, reader := range m.sstables {
+		if id := idOf(reader); id.level == 0 && id.sequence >= m.nextFileNum {
+			m.nextFileNum = id.sequence + 1
+		}
 	}
 
 	return nil
